@@ -446,6 +446,9 @@ pub mod core {
         pub mod jaccard;
         pub mod measurement;
         pub mod uuid;
+        /// Verification failpoints (only with `--cfg delaunay_verif`).
+        #[cfg(delaunay_verif)]
+        pub mod verif_failpoints;
 
         // Re-export public items for ergonomic `crate::core::util::*` access.
         pub use deduplication::*;
